@@ -2,6 +2,7 @@ import PV.Model.Compile
 import PV.Model.PyPrec
 import PV.Proofs.SyntaxStrFlatten
 import PV.Proofs.SyntaxBEq
+import PV.Proofs.C13Cse
 /-
   C13.  The source text of `compile()` under PYTHON's grammar.
 
@@ -116,13 +117,15 @@ def allGPos : List GPos := allPos.map .std ++ [.notArg]
 def gBadPairs (P : ParserPrec) (S : PrintPrec) : List (GPos × Kind) :=
   (allGPos.flatMap fun g => allKinds.map fun k => (g, k)).filter fun gk => !gOk P S gk.1 gk.2
 
-/-- the fragment of `PV.C13.compile_source_groups_current`: covered node shapes, every child
-passes `okTriple` in its position (hence `gOk`: every `not` child passes `notAt`) -/
+/-- the fragment of `PV.C13.compile_source_groups_current`: no wrapper where the base class
+looks at the node type of a child (`cseShapeOk`); the tree WITHOUT its wrappers has covered node
+shapes and every child passes `okTriple` in its position (hence `gOk`: every `not` child passes
+`notAt`) -/
 def InFragmentPy (P : ParserPrec) (S : PrintPrec) (e : Expr) : Bool :=
-  InFragment P S e && notOk P S e
+  cseShapeOk e && InFragment P S (stripCse e) && notOk P S (stripCse e)
 
 /-- the same with arbitrarily nested sums and products -/
 def InFragmentPyFlat (P : ParserPrec) (S : PrintPrec) (e : Expr) : Bool :=
-  InFragmentFlat P S e && notOk P S (flattenAssoc e)
+  cseShapeOk e && InFragmentFlat P S (stripCse e) && notOk P S (flattenAssoc (stripCse e))
 
 end PV.C13
